@@ -29,6 +29,10 @@ XCells == <<
      atoms |-> <<XAt(1, <<0,0,0>>), XAt(2, <<0,0,1>>), XAt(1, <<1,1,0>>), XAt(2, <<1,1,1>>)>>],
   [name |-> "orthoA", G |-> Diag(3,5,7),        D |-> 4, centring |-> "A",
      atoms |-> <<XAt(1, <<0,0,0>>), XAt(2, <<0,0,1>>), XAt(1, <<0,2,2>>), XAt(2, <<0,2,3>>)>>],
+  [name |-> "orthoAm", G |-> Diag(3,5,7),       D |-> 2, centring |-> "A",     \* mmm: the standard setting is C (axes permuted)
+     atoms |-> <<XAt(1, <<0,0,0>>), XAt(2, <<1,0,0>>), XAt(1, <<0,1,1>>), XAt(2, <<1,1,1>>)>>],
+  [name |-> "orthoBm", G |-> Diag(3,5,7),       D |-> 2, centring |-> "B",
+     atoms |-> <<XAt(1, <<0,0,0>>), XAt(2, <<0,1,0>>), XAt(1, <<1,0,1>>), XAt(2, <<1,1,1>>)>>],
   [name |-> "orthoF", G |-> Diag(3,5,7),        D |-> 2, centring |-> "F",
      atoms |-> <<XAt(1, <<0,0,0>>), XAt(1, <<0,1,1>>), XAt(1, <<1,0,1>>), XAt(1, <<1,1,0>>)>>],
   [name |-> "tric",   G |-> <<<<4,1,1>>,<<1,5,2>>,<<1,2,6>>>>, D |-> 4, centring |-> "P",
